@@ -226,3 +226,83 @@ Definition percent_decode (l : list N) : option (list N) := percent_decode_fuel 
 Definition hex_digit (d : N) : N := if d <? 10 then 48 + d else 55 + d.
 Definition escape_byte (b : N) : list N := [percent; hex_digit (b / 16); hex_digit (b mod 16)].
 Definition percent_encode (c : N) : list N := flat_map escape_byte (utf8_encode c).
+
+(* ------------------------------------------------------------------------------------------ *)
+(* 4. The TEXT of tags and of %TAG directives (YAML 1.2.2 productions [36]-[40], [88]-[99])     *)
+(* ------------------------------------------------------------------------------------------ *)
+Definition between (lo hi c : N) : bool := (lo <=? c) && (c <=? hi).
+Fixpoint member (c : N) (l : list N) : bool := match l with [] => false | x :: r => (c =? x) || member c r end.
+
+Definition ns_dec_digit (c : N) : bool := between 48 57 c.
+Definition ns_ascii_letter (c : N) : bool := between 65 90 c || between 97 122 c.
+(* [38] ns-word-char ::= ns-dec-digit | ns-ascii-letter | "-" *)
+Definition ns_word_char (c : N) : bool := ns_dec_digit c || ns_ascii_letter c || (c =? 45).
+(* [39] ns-uri-char ::= "%" hex hex | ns-word-char | # ; / ? : @ & = + $ , _ . ! ~ * ' ( ) [ ]
+   ('%' is a uri character only as the beginning of an escape: that is [percent_decode]'s business) *)
+Definition uri_punctuation : list N := [35; 59; 47; 63; 58; 64; 38; 61; 43; 36; 44; 95; 46; 33; 126; 42; 39; 40; 41; 91; 93].
+Definition ns_uri_char (c : N) : bool := ns_word_char c || member c uri_punctuation || (c =? percent).
+(* [23] c-flow-indicator ::= , [ ] { } *)
+Definition c_flow_indicator (c : N) : bool := member c [44; 91; 93; 123; 125].
+(* [40] ns-tag-char ::= ns-uri-char - "!" - c-flow-indicator *)
+Definition ns_tag_char (c : N) : bool := ns_uri_char c && negb (c =? bang) && negb (c_flow_indicator c).
+(* the characters of a handle name: [92] c-named-tag-handle ::= "!" ns-word-char+ "!"; the implementation also
+   accepts '_' (and the empty name is the secondary handle "!!") *)
+Definition handle_name_char (c : N) : bool := ns_word_char c || (c =? 95).
+(* [33] s-white ::= s-space | s-tab *)
+Definition s_white (c : N) : bool := (c =? 32) || (c =? 9).
+
+Fixpoint all (p : N -> bool) (l : list N) : bool := match l with [] => true | x :: r => p x && all p r end.
+Definition nonempty (l : list N) : bool := match l with [] => false | _ => true end.
+
+(* the spellings of a tag property: text, and the (handle, suffix) it denotes — the suffix DECODED *)
+Definition verbatim_text (uri : list N) : list N := 33 :: 60 :: uri ++ [62].                (* !<uri>   *)
+Definition named_handle (name : list N) : list N := 33 :: name ++ [33].                      (* !name!   *)
+Definition named_text (name suffix : list N) : list N := named_handle name ++ suffix.        (* !name!suffix, !!suffix *)
+Definition local_text (suffix : list N) : list N := 33 :: suffix.                            (* !suffix  *)
+
+Inductive tag_text : list N -> list N -> list N -> Prop :=
+| tt_verbatim : forall uri t, all ns_uri_char uri = true -> percent_decode uri = Some t ->
+    tag_text (verbatim_text uri) [] t
+| tt_named : forall name suffix t, all handle_name_char name = true ->
+    nonempty suffix = true -> all ns_tag_char suffix = true -> percent_decode suffix = Some t ->
+    tag_text (named_text name suffix) (named_handle name) t
+| tt_local : forall suffix t, nonempty suffix = true -> all ns_tag_char suffix = true -> percent_decode suffix = Some t ->
+    tag_text (local_text suffix) [bang] t
+| tt_nonspecific : tag_text [bang] [] [bang].
+
+(* a %TAG line: "%TAG" blanks handle blanks prefix LF, the prefix DECODED
+   ([93] ns-tag-prefix ::= "!" ns-uri-char* | ns-tag-char ns-uri-char* ) *)
+Definition s_tag_line : list N := [37; 84; 65; 71].                                          (* %TAG *)
+Definition dir_line (ws1 handle ws2 prefix : list N) : list N := s_tag_line ++ ws1 ++ handle ++ ws2 ++ prefix ++ [10].
+Inductive tag_directive_text : list N -> list N -> list N -> Prop :=
+| tdt : forall ws1 handle ws2 prefix p,
+    nonempty ws1 = true -> all s_white ws1 = true -> nonempty ws2 = true -> all s_white ws2 = true ->
+    (handle = [bang] \/ exists name, handle = named_handle name /\ all handle_name_char name = true) ->
+    (match prefix with c :: _ => (c =? bang) || ns_tag_char c | [] => false end) = true ->
+    all ns_uri_char prefix = true -> percent_decode prefix = Some p ->
+    tag_directive_text (dir_line ws1 handle ws2 prefix) handle p.
+
+(* the document line used to observe a tag: "--- " tag " x" (end of input) *)
+Definition doc_line (ttext : list N) : list N := [45; 45; 45; 32] ++ ttext ++ [32; 120].
+
+(* tag texts whose characters are of the right classes but whose percent-escapes have NO decoding (invalid escape,
+   incorrect leading or trailing byte, surrogate, above U+10FFFF, non-shortest form): not tags *)
+Inductive bad_tag_text : list N -> Prop :=
+| btt_verbatim : forall uri, all ns_uri_char uri = true -> percent_decode uri = None -> bad_tag_text (verbatim_text uri)
+| btt_named : forall name suffix, all handle_name_char name = true -> all ns_tag_char suffix = true ->
+    percent_decode suffix = None -> bad_tag_text (named_text name suffix)
+| btt_local : forall suffix, all ns_tag_char suffix = true -> percent_decode suffix = None ->
+    bad_tag_text (local_text suffix).
+(* ... and %TAG lines whose prefix has no decoding (anything may follow the prefix after a blank or a break) *)
+Inductive bad_tag_directive_text : list N -> Prop :=
+| btdt : forall ws1 handle ws2 prefix rest,
+    nonempty ws1 = true -> all s_white ws1 = true -> nonempty ws2 = true -> all s_white ws2 = true ->
+    (handle = [bang] \/ exists name, handle = named_handle name /\ all handle_name_char name = true) ->
+    (match prefix with c :: _ => (c =? bang) || ns_tag_char c | [] => false end) = true ->
+    all ns_uri_char prefix = true -> percent_decode prefix = None ->
+    (match rest with [] => true | c :: _ => s_white c || (c =? 10) || (c =? 13) end) = true ->
+    bad_tag_directive_text (s_tag_line ++ ws1 ++ handle ++ ws2 ++ prefix ++ rest).
+
+(* a %TAG line and the directive it denotes; the directive lines of a document, in order *)
+Inductive directive_line_text : list N -> directive -> Prop :=
+| dlt : forall line dh p, tag_directive_text line dh p -> directive_line_text line (DTag dh p).
